@@ -596,7 +596,7 @@ func init() {
 		Level: "exploration",
 		Rule: "round-trip monitor: the harness owns the writer (Go value -> BCL text) and the matching rule (tag first, else equal ignoring case and underscores; type name matched the same way). Struct types are built with reflect.StructOf (1-12 fields of int/float64/string/bool, nested anonymous structs to depth 4, tags on a random subset, a Name field at any index or absent) or taken from a zoo of named types (named nested type included); " +
 			"values: zero, extremes (MinInt64, +-MaxFloat64, denormals, -0.0), random finite floats, strings needing every escape form; key spellings: snake, joined, upper, Go name, extra/leading/trailing underscores, lower camel; field order shuffled; struct binding with every selector and slice binding (all/first/last) into a slice pre-filled with junk. Required: nil error and bit-exact deep equality. " +
-			"distinct = hash(text, type); non-trivial = at least one field crossed the reflection layer Also: struct chains nested 1..16 deep; struct types holding two field names that collide under a common 32-bit string hash (FNV, CRC32, Adler, djb2, sdbm, 31/131 multiplicative, Jenkins, Murmur3, byte sum/xor: internal/lang/collide_table.go); tags equal to a sibling field's Go name (the tag wins); string values equal to the source spelling of another string literal of the same program; U+FFFD, U+FEFF and U+2028 written raw inside literals; field names built from words that are keywords of the language (bind_addr, not_before, or_else, var_set ...); struct types of 31..130 fields; the source buffer is overwritten right after Unmarshal returns.",
+			"distinct = hash(text, type); non-trivial = at least one field crossed the reflection layer Also: struct chains nested 1..16 deep; struct types holding two field names that collide under a common 32-bit string hash (FNV, CRC32, Adler, djb2, sdbm, 31/131 multiplicative, Jenkins, Murmur3, byte sum/xor: internal/lang/collide_table.go); tags equal to a sibling field's Go name (the tag wins); string values equal to the source spelling of another string literal of the same program; U+FFFD, U+FEFF and U+2028 written raw inside literals; field names built from words that are keywords of the language (bind_addr, not_before, or_else, var_set ...); struct types of 31..130 fields; the source buffer is overwritten right after Unmarshal returns. A third of the slice cases are written sparsely: fields holding their zero value are left out, so neighbouring blocks have key sets that are sub- and supersets of each other.",
 		Assumptions:   []string{"field-name sets that are ambiguous under the rule (two fields equal after folding, a tag equal to another field's folded name) are not generated"},
 		MinNontrivial: 1000,
 		Run: func(c *core.Ctx) {
